@@ -552,18 +552,34 @@ class PteraTransformer(NodeTransformer):
         new_body = []
 
         for external in sorted(self.external):
-            new_body.extend(
-                self.make_interaction(
-                    target=ast.Name(id=external, ctx=ast.Store()),
-                    ann=None,
-                    value=ast.Subscript(
-                        value=ast.Name(id="__ptera_globals", ctx=ast.Load()),
-                        slice=ast.Index(value=ast.Constant(external)),
-                        ctx=ast.Load(),
-                    ),
-                    orig=node,
-                )
+            fetch = self.make_interaction(
+                target=ast.Name(id=external, ctx=ast.Store()),
+                ann=None,
+                value=ast.Subscript(
+                    value=ast.Name(id="__ptera_globals", ctx=ast.Load()),
+                    slice=ast.Index(value=ast.Constant(external)),
+                    ctx=ast.Load(),
+                ),
+                orig=node,
             )
+            if not self.should_instrument(external):
+                # Nobody can provide a value for this name: only bind it if
+                # it is defined, so that using an undefined name remains a
+                # NameError instead of handing out the ABSENT marker
+                fetch = [
+                    ast.If(
+                        test=ast.Compare(
+                            left=ast.Constant(external),
+                            ops=[ast.In()],
+                            comparators=[
+                                ast.Name(id="__ptera_globals", ctx=ast.Load())
+                            ],
+                        ),
+                        body=fetch,
+                        orelse=[],
+                    )
+                ]
+            new_body.extend(fetch)
 
         for fv in sorted(self.free):
             new_body.extend(
